@@ -78,7 +78,10 @@ def mk_input(vecs, form):
         elif a.min() >= 0 and a.max() <= 255 and int(a.sum()) % 4 == 2:
             a = a.astype(np.uint8)      # small counts in a narrow unsigned type
     if form == 'rdms':
-        return RDMs(gen.relayout(a.copy()))
+        # the measure label says what the user thinks the numbers are; comparisons use the numbers
+        label = [None, 'euclidean', 'squared euclidean', 'mahalanobis', 'correlation'][
+            (a.shape[0] + a.shape[1]) % 5]
+        return RDMs(gen.relayout(a.copy()), dissimilarity_measure=label)
     if form == 'array1d' and a.shape[0] == 1:
         return a[0].copy()
     return gen.relayout(a.copy())   # C / Fortran / strided / transposed memory, by shape
@@ -241,6 +244,38 @@ def classify_plain(case):
     neg = any(x < 0 for v in case['v1'] + case['v2'] for x in v)
     labels.append('negative-entries' if neg else 'non-negative')
     return labels, len(case['v1']) != len(case['v2']) or neg
+
+
+# ---- sub-check: many conditions (more than 2^15 distinct dissimilarities) ------------------
+
+@st.composite
+def large_case(draw):
+    n = draw(st.sampled_from([258, 260, 263]))
+    return dict(n=n, a=draw(st.integers(3, 10 ** 6)), b=draw(st.integers(3, 10 ** 6)),
+                method=draw(st.sampled_from(['tau-a', 'kendall', 'spearman', 'rho-a'])))
+
+
+def check_large(case):
+    """tie-free vectors over > 32767 pairs (a multiplicative shuffle of 1..P): without ties tau-a =
+    tau-b = Kendall's tau and rho-a = Spearman's rho, as computed by scipy.stats (trusted)"""
+    import scipy.stats as ss
+    n = case['n']
+    P = ref.n_pairs(n)
+    prime = 1000003
+    v1 = (np.arange(1, P + 1) * (case['a'] % prime or 7) % prime).astype(float)
+    v2 = 0.5 * v1 + (np.arange(1, P + 1) * (case['b'] % prime or 11) % prime).astype(float)
+    if len(np.unique(v1)) < P or len(np.unique(v2)) < P:
+        raise Reject('ties', 'degenerate:ties')
+    m = case['method']
+    got = float(np.asarray(lib(C.compare, v1[None, :], v2[None, :], method=m, on_error='violation',
+                               sig='raises:' + m))[0, 0])
+    want = float(ss.kendalltau(v1, v2)[0]) if m in ('tau-a', 'kendall') else float(ss.spearmanr(v1, v2)[0])
+    require_close(got, want, '%s of two tie-free RDMs over %d conditions (%d pairs)' % (m, n, P),
+                  'value:large:' + m, rtol=1e-9, atol=1e-10)
+
+
+def classify_large(case):
+    return ['method:' + case['method'], 'n_cond=%d' % case['n']], True
 
 
 # ---- sub-check: rank measures ---------------------------------------------------------
@@ -546,6 +581,9 @@ SUBCHECKS = [
     SubCheck('plain', plain_case(), check_plain, classify_plain, quick=600, thorough=8000,
              doc='cosine / Pearson: (i,j) entries equal the definition; symmetry, self = 1, range, '
                  'condition-permutation invariance, array == RDMs input'),
+    SubCheck('many_conditions', large_case(), check_large, classify_large, quick=6, thorough=40,
+             doc='tau-a / Kendall / Spearman / rho-a of tie-free RDMs over 258-263 conditions (> 2^15 '
+                 'pairs) vs scipy.stats'),
     SubCheck('rank', rank_case(), check_rank, classify_rank, quick=1200, thorough=16000,
              doc='Spearman, Kendall tau-b, tau-a, rho-a with ties: brute-force concordance counts, '
                  'mid-ranks, enumerated tie-breakings; same laws'),
